@@ -15,6 +15,7 @@ import (
 	"github.com/cosmos/cosmos-sdk/types/tx/signing"
 	authsigning "github.com/cosmos/cosmos-sdk/x/auth/signing"
 	"github.com/cosmos/cosmos-sdk/x/authz"
+	"github.com/cosmos/cosmos-sdk/x/feegrant"
 	banktypes "github.com/cosmos/cosmos-sdk/x/bank/types"
 	govv1 "github.com/cosmos/cosmos-sdk/x/gov/types/v1"
 	stakingtypes "github.com/cosmos/cosmos-sdk/x/staking/types"
@@ -215,6 +216,22 @@ func (w *World) BuildMsg(m M) (sdk.Msg, error) {
 		return g, nil
 	case "Revoke":
 		return &authz.MsgRevoke{Granter: A("granter"), Grantee: A("grantee"), MsgTypeUrl: msgTypeURL(mStr(m, "mt"))}, nil
+	case "FGrant":
+		granter, err := sdk.AccAddressFromBech32(A("granter"))
+		if err != nil {
+			return nil, err
+		}
+		grantee, err := sdk.AccAddressFromBech32(A("grantee"))
+		if err != nil {
+			return nil, err
+		}
+		g, err := feegrant.NewMsgGrantAllowance(&feegrant.BasicAllowance{}, granter, grantee)
+		if err != nil {
+			return nil, err
+		}
+		return g, nil
+	case "FRevoke":
+		return &feegrant.MsgRevokeAllowance{Granter: A("granter"), Grantee: A("grantee")}, nil
 	case "UpdParams":
 		return w.buildUpdParams(m)
 	case "GovProp":
